@@ -366,3 +366,21 @@ def codepoint_chunks(n):
     """The whole code space 0..0x10FFFF (surrogates included) in n contiguous ranges."""
     step = (0x110000 + n - 1) // n
     return [(lo, min(lo + step, 0x110000)) for lo in range(0, 0x110000, step)]
+
+
+_EQUIV = {}
+
+
+def equivalents_table():
+    """{ASCII letter/digit: [code points that some Unicode mapping turns into it]} (inverse of ascii_equivalents), built once."""
+    if not _EQUIV:
+        import unicodedata
+        table = {a: [] for a in ALNUM}
+        for cp in range(0x80, 0x110000):
+            ch = chr(cp)
+            if not (ch.isalnum() or unicodedata.decomposition(ch)):
+                continue
+            for a in ascii_equivalents(ch):
+                table[a].append(ch)
+        _EQUIV.update(table)
+    return _EQUIV
